@@ -18,16 +18,28 @@ Ltac loads :=
 
 Lemma bridge_load_uint16 b0 b1 : (b0 < 256)%N -> (b1 < 256)%N ->
   g_cbor_load_uint16 (srcf [b0; b1]) = Z.of_N (be_val [b0; b1]).
-Proof. intros. unfold g_cbor_load_uint16. loads. norm. lia. Qed.
+Proof.
+  intros.
+  first [ unfold g_cbor_load_uint16; loads; norm; lia
+        | unfold g_cbor_load_uint16, fb_cbor_load_uint16, srcf; cbn [map Z.to_nat Pos.to_nat Pos.iter_op Nat.add nth]; rewrite !N2Z.id; reflexivity ].
+Qed.
 
 Lemma bridge_load_uint32 b0 b1 b2 b3 : (b0 < 256)%N -> (b1 < 256)%N -> (b2 < 256)%N -> (b3 < 256)%N ->
   g_cbor_load_uint32 (srcf [b0; b1; b2; b3]) = Z.of_N (be_val [b0; b1; b2; b3]).
-Proof. intros. unfold g_cbor_load_uint32. loads. norm. lia. Qed.
+Proof.
+  intros.
+  first [ unfold g_cbor_load_uint32; loads; norm; lia
+        | unfold g_cbor_load_uint32, fb_cbor_load_uint32, srcf; cbn [map Z.to_nat Pos.to_nat Pos.iter_op Nat.add nth]; rewrite !N2Z.id; reflexivity ].
+Qed.
 
 Lemma bridge_load_uint64 b0 b1 b2 b3 b4 b5 b6 b7 :
   (b0 < 256)%N -> (b1 < 256)%N -> (b2 < 256)%N -> (b3 < 256)%N -> (b4 < 256)%N -> (b5 < 256)%N -> (b6 < 256)%N -> (b7 < 256)%N ->
   g_cbor_load_uint64 (srcf [b0; b1; b2; b3; b4; b5; b6; b7]) = Z.of_N (be_val [b0; b1; b2; b3; b4; b5; b6; b7]).
-Proof. intros. unfold g_cbor_load_uint64. loads. norm. lia. Qed.
+Proof.
+  intros.
+  first [ unfold g_cbor_load_uint64; loads; norm; lia
+        | unfold g_cbor_load_uint64, fb_cbor_load_uint64, srcf; cbn [map Z.to_nat Pos.to_nat Pos.iter_op Nat.add nth]; rewrite !N2Z.id; reflexivity ].
+Qed.
 
 (* ---- streaming.c: claim_bytes ---- *)
 Lemma bridge_claim_bytes required provided r : (required < 2^64)%N -> (provided < 2^64)%N -> (rd r < 2^64)%N ->
@@ -35,6 +47,10 @@ Lemma bridge_claim_bytes required provided r : (required < 2^64)%N -> (provided 
   let (ok, r') := claim_bytes required provided r in
   (b2z ok, Z.of_N (rd r'), zstatus (st r'), Z.of_N (req r')).
 Proof.
-  intros H1 H2 H3. unfold gclaim_bytes, claim_bytes, sat_add64, sub64. cbv zeta. norm.
-  splits; cbn [rd st req zstatus]; repeat f_equal; pows; try lia.
+  intros H1 H2 H3.
+  first [ unfold gclaim_bytes, claim_bytes, sat_add64, sub64; cbv zeta; norm;
+          splits; cbn [rd st req zstatus]; repeat f_equal; pows; try lia; fail
+        | unfold gclaim_bytes, fbclaim_bytes; rewrite !N2Z.id;
+          replace (status_of (zstatus (st r))) with (st r) by (destruct (st r); reflexivity);
+          destruct r; reflexivity ].
 Qed.
